@@ -32,4 +32,17 @@ let table_line l =
                                   String.concat "," (List.map (fun i -> string_of_int (int_of_nat i)) ids)) (arity_labels rs))
   | _ -> failwith "table"
 
-let () = if Array.length Sys.argv > 1 && Sys.argv.(1) = "table" then each_line table_line else each_line line
+(* (((cls depth) ...) ((base derived) ...) ((const pkind ...) ...) this_const (arg ...)) -> "c (pkinds)" / "n (pkinds)" / none *)
+let cline l =
+  match parse l with
+  | L [L ds; L bs; L os; tc; L args] ->
+    let ov = function L (A c :: ps) -> { o_const = (c = "1"); o_params = List.map pk ps } | _ -> failwith "ov" in
+    (match crun (List.map pair ds) (List.map pair bs) (List.map ov os) (tc = A "1") (List.map ar args) with
+     | None -> "none"
+     | Some o -> (if o.o_const then "c (" else "n (") ^ String.concat " " (List.map show_pk o.o_params) ^ ")")
+  | _ -> failwith "cline"
+
+let () =
+  if Array.length Sys.argv > 1 && Sys.argv.(1) = "table" then each_line table_line
+  else if Array.length Sys.argv > 1 && Sys.argv.(1) = "cdispatch" then each_line cline
+  else each_line line
